@@ -641,6 +641,10 @@ class Exec:
         raise OutOfReach(f'== between {a.kind} and {b.kind}')
 
     def contains(self, st, a, b):
+        hk = self.c.get('in_hook')
+        if hk is not None:
+            r = hk(self, st, a, b)
+            if r is not None: return r
         if b.kind in ('seq', 'set'):
             ek = b.x['ek']
             if ek.kind == 'real' or (a.kind == 'real' and ek.kind in ('num',)):
@@ -742,7 +746,30 @@ class Exec:
 
     def e_Lambda(self, e, st): return V('fn', e, st=st)
 
-    def e_DictComp(self, e, st): return V('opaque')     # no information; any use that needs its content is out of reach
+    def e_DictComp(self, e, st):
+        """{k: v for k, v in M.items() if cond(k)}  -> the map M restricted to the keys satisfying cond; anything else: no information"""
+        try:
+            if len(e.generators) != 1: return V('opaque')
+            g = e.generators[0]
+            src = self.ev(g.iter, st)
+            tgt = g.target
+            if not (src.kind == 'mapiter' and src.x['what'] == 'items' and isinstance(tgt, ast.Tuple) and len(tgt.elts) == 2
+                    and all(isinstance(t, ast.Name) for t in tgt.elts) and isinstance(e.key, ast.Name) and isinstance(e.value, ast.Name)
+                    and e.key.id == tgt.elts[0].id and e.value.id == tgt.elts[1].id):
+                return V('opaque')
+            m = src.x['m']
+            if m.get('empty'): return m
+            arr, dom = m.t
+            k = self.fresh(m.x['kk'].sort(), 'dk')
+            cst = st.fork()
+            cst.vars[tgt.elts[0].id] = m.x['kk'].wrap(k); cst.vars[tgt.elts[1].id] = m.x['vk'].wrap(z3.Select(arr, k))
+            save = self.dry; self.dry += 1
+            try: cond = z3.And(*[truthy(self.ev(c, cst)) for c in g.ifs]) if g.ifs else z3.BoolVal(True)
+            finally: self.dry = save
+            ndom = z3.Lambda([k], z3.And(z3.Select(dom, k), cond))
+            return V('map', (arr, ndom), kk=m.x['kk'], vk=m.x['vk'], size=None)
+        except OutOfReach:
+            return V('opaque')
 
     # ---- calls
     def e_Call(self, e, st):
@@ -1021,6 +1048,8 @@ class Exec:
         if isinstance(target, ast.Subscript):
             o = self.ev(target.value, st)
             k = self.ev(target.slice, st)
+            hk = self.c.get('subscript_store_hook')
+            if hk is not None and hk(self, st, o, k, v): return st
             if o.kind == 'map':
                 if o.get('empty'):
                     kk, vk = desc_of(k), desc_of(v)
